@@ -245,7 +245,7 @@ class Sim:
             PYTHONHASHSEED=hs,
             VSIM_ZSOCK=zsock,
             VSIM_FILELOCK=scen.get("filelock", ""),
-            VSIM_JOB_EVENTS="1" if scen.get("job_events") else "",
+            VSIM_JOB_EVENTS=("2" if scen.get("job_events") == 2 else "1") if scen.get("job_events") else "",
             JADE_REGISTRY=ctx["registry"],
             OPENBLAS_NUM_THREADS="1",
             OMP_NUM_THREADS="1",
@@ -899,6 +899,7 @@ class Sim:
         self.launches.setdefault(job, []).append(rec)
         if msg.get("events"):
             self.job_events_written.append(msg["events"][0])
+            self.job_events_written.extend(msg["events"][2:])  # resource samples, written at the start as well
             self.job_events_pending[a.pid] = msg["events"][1]
         self.running_jobs[a.pid] = (job, a.node)
         live = sum(1 for (_j, n) in self.running_jobs.values() if n == a.node)
@@ -1856,9 +1857,16 @@ class Sim:
             return
         from jade.events import EventsSummary
 
+        stats_names = EventsSummary.RESOURCE_STATS  # consolidated into <name>.parquet: one row per sample with timestamp, source and the data fields
+
         def collect():
             es = EventsSummary(self.outname)
-            return {name: [(ev.timestamp, json.dumps([ev.timestamp, ev.source, ev.category, ev.message, ev.data], sort_keys=True)) for ev in es.list_events(name)] for name in raw}
+            out = {name: [(ev.timestamp, json.dumps([ev.timestamp, ev.source, ev.category, ev.message, ev.data], sort_keys=True)) for ev in es.list_events(name)] for name in raw if name not in stats_names}
+            for name in raw:
+                if name in stats_names:
+                    df = es.get_dataframe(name)
+                    out[name] = [(str(ts), json.dumps([str(ts), row.get("source"), {k: v for k, v in row.items() if k != "source"}], sort_keys=True)) for ts, row in ((i, r.to_dict()) for i, r in df.iterrows())]
+            return out
 
         try:
             first = collect()
@@ -1867,6 +1875,9 @@ class Sim:
             self.viol("C20", "summary-crashed", f"EventsSummary raised {e!r} on the {nlines} events of this run")
             return
         for name, lines in raw.items():
+            if name in stats_names:  # same comparison over the fields a resource sample has in the parquet file
+                lines = [json.dumps([json.loads(l)[0], json.loads(l)[1], json.loads(l)[4]], sort_keys=True) for l in lines]
+                self.stat_samples_checked = getattr(self, "stat_samples_checked", 0) + len(lines)
             got = [x[1] for x in first.get(name, [])]
             if sorted(got) != sorted(lines):
                 self.viol("C20", "event-multiset", f"event name {name!r}: {len(lines)} written by the run's processes, {len(got)} in the consolidated summary")
@@ -1874,6 +1885,7 @@ class Sim:
             if ts != sorted(ts):
                 self.viol("C20", "event-order", f"event name {name!r}: not ordered by time in the consolidated summary")
         if truth:
+            truth = [(s_, l) for s_, l in truth if json.loads(l)[2] == "job"]
             got = [x[1] for x in first.get("probe_job", [])]
             lost = sorted({src for src, l in truth if got.count(l) == 0})
             dup = sorted({src for src, l in truth if got.count(l) > 1})
@@ -2141,6 +2153,7 @@ class Sim:
             "time_jumps": self.time_jumps,
             "parks": self.parks,
             "job_events_checked": getattr(self, "job_events_checked", 0),
+            "stat_samples_checked": getattr(self, "stat_samples_checked", 0),
             "live_lock_breaks": self.live_lock_breaks,
             "events_checked": getattr(self, "events_checked", 0),
             "endgame_stalled_at": str(self.eg.get("at")) if self.eg and self.eg.get("at") else None,
